@@ -245,6 +245,12 @@ def curated() -> Dict[str, World]:
         {"top.do": [S(deps=["a", "b"])], "a.do": [S(deps=["leaf"])], "b.do": [S(deps=["leaf", "u"], out="file")],
          "leaf.do": [S(deps=["s"])]},
         ["top", "a", "b", "leaf"], ["top", "a"])
+    W["diamond-csum"] = World(   # a diamond over `data` whose first side records a checksum that hides data's changes
+        "diamond-csum", {"src": ["0", "1"]},
+        {"top.do": [S(deps=["head", "full"])], "head.do": [S(kind="csum", deps=["data"], proj=True)],
+         "full.do": [S(deps=["data"], out="file")], "data.do": [S(deps=["src"])]},
+        ["top", "head", "full", "data"], ["top", "head"],
+        prefixes=[[["ifchange", ["top"]], ["edit", "src", "1"]]])
     W["csum-mid"] = World(
         "csum-mid", {"s": V3},
         {"top.do": [S(deps=["c"])], "c.do": [S(kind="csum", deps=["s"], proj=True, out="file")]},
@@ -334,7 +340,9 @@ def curated() -> Dict[str, World]:
         "dovar", {"s": ["0", "1"], "u": ["0", "1"]},
         {"top.do": [S(deps=["m"])], "m.do": [S(deps=["s"]), S(deps=["u"], tag="v1"), S(deps=["s", "u"], tag="v2", out="file")]},
         ["top", "m"], ["top", "m"],
-        prefixes=[[["ifchange", ["top"]], ["dovar", "m.do", 1], ["ifchange", ["top"]]]])
+        prefixes=[[["ifchange", ["top"]], ["dovar", "m.do", 1], ["ifchange", ["top"]]],
+                  # m built with two dependencies, its file removed, its script reduced to one dependency, rebuilt through top
+                  [["dovar", "m.do", 2], ["ifchange", ["top"]], ["rm", "m"], ["dovar", "m.do", 0], ["ifchange", ["top"]]]])
     W["chain-append"] = World(   # scripts that build $3 by appending, partly before their dependencies are requested
         "chain-append", {"s": V3},
         {"top.do": [S(deps=["mid"], out="append")], "mid.do": [S(deps=["s"], out="append")]},
